@@ -55,10 +55,24 @@ func (d Derived) String() string {
 // attributed to the caller's property by convention (C02/C03/C08 own these steps).
 func GenDerived(t *rapid.T, base Table, maxSteps int) Derived {
 	n := base.N()
-	rank := rapid.Permutation(Iota(n)).Draw(t, "rank")
+	var rank []int
 	mask := make([]int, n)
-	for i := range mask {
-		mask[i] = rapid.IntRange(0, 3).Draw(t, "mask")
+	if n <= 600 {
+		rank = rapid.Permutation(Iota(n)).Draw(t, "rank")
+		for i := range mask {
+			mask[i] = rapid.IntRange(0, 3).Draw(t, "mask")
+		}
+	} else {
+		// big tables: the helper columns come from one drawn seed (a draw per row would dominate the run time)
+		rng := SplitMix(rapid.Uint64().Draw(t, "helperseed"))
+		rank = Iota(n)
+		for i := n - 1; i > 0; i-- {
+			j := rng.Intn(i + 1)
+			rank[i], rank[j] = rank[j], rank[i]
+		}
+		for i := range mask {
+			mask[i] = rng.Intn(4)
+		}
 	}
 	full := Table{Cols: append(append([]Col(nil), base.Cols...),
 		Col{Name: HelperRank, Kind: KInt, I: rank},
